@@ -32,6 +32,7 @@ type verifApp struct {
 	appMayReject   bool // FromApp may return a session-level or business reject
 	toAppMayRefuse bool // ToApp may return an error (ErrDoNotSend)
 	refusals       int
+	adminRejects   int // FromAdmin returned a reject (thorough tier only)
 	ids            []string // ClOrdID (11) of every message handed to FromApp, in order
 	logonAsksReset bool     // ToAdmin adds ResetSeqNumFlag=Y to an outgoing Logon (an application may decorate admin messages)
 }
@@ -69,6 +70,7 @@ func (a *verifApp) record(m *Message) verifDelivery {
 func (a *verifApp) FromAdmin(m *Message, _ SessionID) MessageRejectError {
 	a.fromAdmin = append(a.fromAdmin, a.record(m))
 	if a.appMayReject && verifTier() == 1 && ndBool("fromadmin-rejects") {
+		a.adminRejects++
 		return ValueIsIncorrect(Tag(58))
 	}
 	return nil
@@ -94,6 +96,7 @@ func (a *verifApp) FromApp(m *Message, _ SessionID) MessageRejectError {
 
 type verifRig struct {
 	allEventTypes bool // verifEvent also generates 35=j and 35=3 inbound messages
+	richEvents    bool // verifEvent also varies two-letter application types and a ResendRequest without its range
 	s             *session
 	app           *verifApp
 	out           chan []byte
